@@ -429,6 +429,16 @@ def stack_program(spec):
         for i in range(d, 0, -1):
             e = 'w%d(%s)' % (i, e)
         return e
+    # the decorated callable may carry its own instance-level __signature__ (set by hand or by
+    # modifiers.annotate), with or without a forger: update_wrapper copies it into the layer,
+    # which must forget it again.  The effective signature is unchanged by construction.
+    fsig = spec.get('fsig')
+    if fsig == 'hand':
+        src[0] += 'import inspect\n'
+        src.append('f_raw.__signature__ = inspect.signature(f_raw)\n')
+    elif fsig == 'annotate':
+        src[0] += 'from sigtools import modifiers\n'
+        src.append('f_raw = modifiers.annotate(%s=int)(f_raw)\n' % name_of(spec['fsig_name']))
     if pl == 'function':
         src.append('f = %s\n' % wrap('f_raw'))
         stored = deco(plain)
@@ -799,6 +809,13 @@ def gen_stack_spec(rng, U_f, U_owns):
         # consumed and no layer may also write it as a literal keyword (every call would fail)
         for l in layers:
             l['names'] = [k for k in l['names'] if k != fparams[0][0]]
+    r = rng.random()
+    named = [p[0] for p in fparams if p[1] in ('PO', 'PK', 'KO')]
+    if r < 0.25:
+        spec['fsig'] = 'hand'
+    elif r < 0.4 and 'fform' not in spec and (named or first is not None):
+        spec['fsig'] = 'annotate'
+        spec['fsig_name'] = named[0] if named else first
     return spec
 
 
